@@ -7,6 +7,12 @@ CLAIMED = {
  "C01": ("DESIGN 6/C01", "Lean 4 theorem tsFeat_exact (Tv/Thm/C01.lean): for every series, window >= 1, min_periods and position, each of the 8 incremental closures (sum, mean, ewm, wma, std, var, skew, kurt; null-aware and plain) under either driver shape emits exactly the statistic evaluated from scratch on the non-null elements of positions max(0,i-w+1)..=i (invariant: accumulator state = power sums / weighted sums of the current window, by induction over the add/remove history, no length bound). Exact-rational model; tied to the code by a differential run over all 18 entry points (+ ts_fdiff/ts_vfdiff, which are covered by correspondence only so far) x element/output types, exhaustive over small alphabets plus random series.",
          "Lean kernel; axioms propext/Quot.sound/Classical.choice (Mathlib ring/field_simp over Rat); closures hand-transcribed from features.rs and validated by the correspondence run; IEEE rounding/drift not modelled (inputs are dyadic so power sums are exact in f64); fdiff coefficient theorem pending (correspondence only).",
          "Lean 4 proof (generic refinement run_refines + algebraic invariants) + model/implementation correspondence check"),
+ "C05": ("DESIGN 6/C05", "Lean 4: maskTable_matches (the min_periods expression, window clamp, intrinsic minimum and driver of every ts_* entry point, re-extracted from the Rust sources on each run, equal the model's table), feat_len / feat_empty / feat_null_iff (output i is null iff the number of non-null observations of its window is below max k (min (mp or w/2) w)) for every series, window, min_periods; same statements for the other families come from their _exact theorems as they are merged. Correspondence: exhaustive mask-only comparison of every catalogued entry point on 14 input backends, len 0..5 incl. len<w and empty, all null subsets.",
+         "Lean kernel; axioms propext/Quot.sound/Classical.choice; translator regexes (fail closed via maskTable_matches); zero-denominator positions accept null or non-null (DESIGN 5.6).",
+         "Lean 4 proof (corollaries of the refinement theorems) + translator-regenerated mask table + model/implementation correspondence check"),
+ "C06": ("DESIGN 6/C06", "Lean 4: feat_prefix (evaluating on any prefix yields the prefix of the result) and feat_prewindow (output i depends only on positions i+1-w..=i), corollaries of the _exact theorems through the generic windowed_prefix / window_congr lemmas, for all series/cuts/windows/min_periods; relational correspondence on the real code: prefix results compared bit-for-bit for every cut, history replacement compared within rounding (exactly for exact families) and against the model.",
+         "Lean kernel; axioms propext/Quot.sound/Classical.choice; the size of the floating-point residue of pre-window history is a rounding fact observed by the run, not proved (DESIGN 5.1).",
+         "Lean 4 proof (locality corollaries of refinement theorems) + relational model/implementation correspondence check"),
  "C02": ("DESIGN 6/C02", "Lean 4 theorems (Tv/Thm/C02.lean) prove for every length, window >= 1 and both driver shapes that the callback sequence is i -> (start i, i) over 0..len, slots written = 0..len in order, slices = window max(0,i-w+1)..=i; the model is tied to the code by an exhaustive differential run of all driver entry points x 15 input backends x 3 output containers x returned/out-buffer paths with a recording stateful callback.",
          "Lean kernel; axioms propext/Quot.sound/Classical.choice; index-level model of view.rs loops hand-written and validated by the correspondence run; std/ndarray internals observed, not verified.",
          "Lean 4 proof (induction over index lists) + model/implementation correspondence check"),
